@@ -40,6 +40,12 @@ PROGRAMS = [
   ('with_three_parents', 'C(x) distinct :- E(x, y), x > 0;\nB(x) distinct :- C(x);\n@Ground(G);\nG(x) :- B(x);\n'
                          '@Ground(H);\nH(x) :- B(x), x > 1;\nQ(x) :- G(x), H(x), B(x);', ['Q']),
   ('argmax', 'Top(x) ArgMax= y -> y :- E(x, y);', ['Top']),
+  # aggregating expressions without a body, alone and next to one with a body
+  ('bodyless_combine', 'P(x, l) :- T(x, s), l List= x;\nP2(x, sm, m) :- T(x, s), sm Sum= (y :- E(x, y)), m Max= x + 10;\n'
+   'Tot() = Sum{y :- E(x, y)};\nP3(x, Tot()) :- T(x, s);', ['P', 'P2', 'P3']),
+  ('constant_columns', 'K("cat", x) :- T(x, s);\nP(x) :- K("dog", x);\nP2(x, 1, "a") :- K("cat", x);', ['P', 'P2']),
+  ('paren_groups', 'P(x) :- (T(x, s), E(x, y)), x > 0;\nP2(x) :- (T(x, s), (E(x, 1) | x == 1)), x < 3;', ['P', 'P2']),
+  ('double_negation', 'P(x) :- T(x, s), ~(~E(x, y));\nP2(x) :- T(x, s), ~(T(x, s), ~E(x, 1));', ['P', 'P2']),
 ]
 
 
